@@ -120,6 +120,7 @@ func init() {
 			"NOT decided: deadlock freedom in general, leaks of callers, races inside pdata / the otel SDK / the semaphore. A necessary-condition race check, not a proof.",
 		"sync.WaitGroup, sync.Mutex, semaphore.Weighted behave as documented")
 	register("C05", &core.Rule{ID: "C05.17", Title: "the export slot is acquired before the spawn and released by a defer established first (a slot leaked on some path ends with the shard loop blocked in Acquire: accepted items are never exported)", Mod: core.ModCBP, Floor: 4, Run: c11_1})
+	register("C09", &core.Rule{ID: "C09.12", Title: "every request received from the queue reaches the buffer (the loop hands it to the item handler, which adds it on every path): an accepted item that never enters the buffer is exported neither at send_batch_size nor by the timer", Mod: core.ModCBP, Floor: 2, Run: c05_7})
 	register("C09", &core.Rule{ID: "C09.11", Title: "the export slot is acquired and released with weight 1, before the spawn and by a defer established first (a wedged shard loop flushes nothing: no size trigger, no deadline)", Mod: core.ModCBP, Floor: 4, Run: c11_1})
 	register("C11", &core.Rule{ID: "C11.1", Title: "semaphore: exists iff configured; acquire before spawn; release deferred first", Mod: core.ModCBP, Floor: 4, Run: c11_1})
 	register("C11", &core.Rule{ID: "C11.2", Title: "wait group covers every goroutine; Shutdown closes then waits", Mod: core.ModCBP, Floor: 5, Run: c11_2})
